@@ -8,7 +8,7 @@ import asyncio
 from vt import explore
 from vt.env.iprig import IpRig, std_handler
 
-BEHAVIOURS = ["ok", "close-m1", "http-400", "wrong-id", "bad-sig", "auth-error", "garbage", "m4-auth-error", "close-m3", "busy-error", "http-470"]
+BEHAVIOURS = ["ok", "close-m1", "http-400", "wrong-id", "bad-sig", "auth-error", "garbage", "m4-auth-error", "close-m3", "busy-error", "http-470", "ok-bad-subscribe-reply"]
 
 
 def mk_description(hosts, port=51826, c=1, s=1, acc_id="aa:bb:cc:dd:ee:ff"):
@@ -30,7 +30,12 @@ class ReconnH(explore.Harness):
         self.rig = IpRig(seed=p.get("seed", 0), hosts=self.hosts, auto=False)
         self.rig.auto_deliver = True
         self.loop, self.net, self.pairing, self.conn = self.rig.loop, self.rig.net, self.rig.pairing, self.rig.conn
-        self.rig.acc.handler = std_handler()
+        def _bad_sub(sess, method, target, headers, body):
+            if getattr(sess, "bad_subscribe", False):
+                return 207, b'{"characteristics":[{"aid":1,"iid":9}]}', "application/hap+json"
+            return 204, b"", None
+
+        self.rig.acc.handler = std_handler({("PUT", "/characteristics"): _bad_sub})
         self.alphabet = p.get("behaviours", BEHAVIOURS)
         self.triggers = p.get("triggers", ["zc-same", "zc-changed", "ensure", "ensure-t3", "cancel-ensure", "close", "shutdown", "drop", "drop-old"])
         self.max_attempts = p.get("rounds", 16)
@@ -89,6 +94,10 @@ class ReconnH(explore.Harness):
         sess = conn.session
         if beh in ("wrong-id", "bad-sig", "auth-error", "garbage", "m4-auth-error", "busy-error", "http-400", "http-470"):
             sess.fault = beh
+        elif beh == "ok-bad-subscribe-reply":
+            # secure session is fine, but the reply to the re-subscription is malformed (a 207 whose entry has no status): whatever
+            # connection_made(True) does with it, the connection must not be leaked
+            sess.bad_subscribe = True
         elif beh in ("close-m1", "close-m3"):
             n_needed = 1 if beh == "close-m1" else 2
             orig = conn.handler
